@@ -122,8 +122,8 @@ class Position
 
     HashKey _zobrist_hash;
 
-    int32_t _history_counter;
-    uint64_t _history[MAX_PLIES];
+    // hashes of all positions since the initial one (including current)
+    std::vector<uint64_t> _history;
 };
 
 std::ostream& operator<<(std::ostream& stream, const Position& position);
